@@ -358,6 +358,10 @@ def module_roundtrip(enc, style):
     body = texts[enc]
     src = ("## -*- coding: %s -*-\n" % enc if style in ("comment", "both") else "") + body + "${'!'}\n"
     kw = {"input_encoding": enc} if style in ("input_encoding", "both") else {}
+    if style == "conflicting":
+        # the comment names the file's real encoding, input_encoding another one: the comment takes precedence
+        src = "## -*- coding: %s -*-\n" % enc + body + "${'!'}\n"
+        kw = {"input_encoding": {"utf-8": "latin-1", "latin-1": "utf-8", "cp1251": "koi8-r", "koi8-r": "cp1251", "ascii": "utf-8"}[enc]}
     base = tempfile.mkdtemp(prefix="c18mod")
     out = []
     try:
